@@ -636,3 +636,5 @@ seed('c13-n-components-swap-pop-step-back', 'C13', [(GRIDH, "                   
 seed('c12-sibling-guard-shift-form-odd-size', 'C12', [(PDFH, "if (index + 2 == data_.size() && index % 2 == 0)", "if ((index >> 1) == (data_.size() >> 1) - 1)")], 'R12c')
 seed('c12-n-sibling-guard-parent-form', 'C12', [(PDFH, "if (index + 2 == data_.size() && index % 2 == 0)", "if ((index >> 1) == ((data_.size() - 1) >> 1))")], None)
 seed('c12-n-sibling-guard-bit-test', 'C12', [(PDFH, "if (index + 2 == data_.size() && index % 2 == 0)", "if (index + 2 == data_.size() && (index & 1) == 0)")], None)
+INFS = 'src/ompl/base/samplers/src/InformedStateSampler.cpp'
+seed('c15-n-heuristic-seeded-with-start-zero', 'C15', [(INFS, "            Cost bestCost = opt_->infiniteCost();\n\n            // Iterate over each start and store the best\n            for (unsigned int i = 0u; i < probDefn_->getStartStateCount(); ++i)", "            Cost bestCost = opt_->combineCosts(opt_->motionCostHeuristic(probDefn_->getStartState(0u), statePtr),\n                                               opt_->costToGo(statePtr, probDefn_->getGoal().get()));\n\n            // Iterate over the other starts and store the best\n            for (unsigned int i = 1u; i < probDefn_->getStartStateCount(); ++i)")], None)
